@@ -98,7 +98,7 @@ def _design(ck, quick, wd):
     for mod, name, inv, prop in (("Tree", "SetRoot", TREE_INV, TREE_PROP), ("Dag", "RemoveSon", DAG_INV, DAG_PROP)):
         cfg = os.path.join(wd, "forget_%s.cfg" % mod)
         _cfg(cfg, 3, 2, [1], [name], inv, prop)
-        r = vc.tlc(SPEC, mod, cfg, workers=4, timeout=900)
+        r = vc.tlc(SPEC, mod, cfg, workers=4, timeout=900, extra=("-noGenerateSpecTE",))
         caught.append("%s/Forget={%s}: %s" % (mod, name, r.invariant))
         if not r.invariant:
             raise vc.MachineryError("the design model %s with a forgotten invalidation (%s) was NOT rejected by TLC" % (mod, name))
@@ -169,7 +169,25 @@ def _corruption_control(ck, exe, wd):
     ck.extra["corrupted_trace_control"] = res
 
 
+def _sweep():
+    """TLC writes <Module>_TTrace_<time>.tla/.bin next to the spec whenever an invariant fails (the negative
+    controls make one fail on purpose): keep the spec directory clean."""
+    import glob
+    for f in glob.glob(os.path.join(SPEC, "*_TTrace_*")):
+        try:
+            os.remove(f)
+        except OSError:
+            pass
+
+
 def run(tier, seed):
+    try:
+        return _run(tier, seed)
+    finally:
+        _sweep()
+
+
+def _run(tier, seed):
     ck = vc.Check("C15", tier, seed)
     quick = tier == "quick"
     wd = vc.workdir("c15")
@@ -251,6 +269,7 @@ def replay(path):
         pass
     mod, cfg = _module(kind)
     n_ev, rej, st = vc.validate_trace(SPEC, mod, cfg, path, parallel=1)
+    _sweep()
     for rj in rej:
         vc.log("VIOLATION property=C15 replay=%s" % path)
         vc.log("  %s at event #%d: %s" % (rj.reason, rj.index, json.dumps(rj.event)[:400]))
